@@ -157,6 +157,15 @@ add("C05", "exploration", [
      "shards": {"quick": 4, "thorough": 16}, "timeout": {"quick": 900, "thorough": 3300}},
 ])
 
+add("C02", "fault_enumeration", [
+    {"name": "c02-single", "bin": "c02", "pkg": ZZ + "c02", "run": "^TestVerifC02SingleKill$",
+     "shards": {"quick": 12, "thorough": 16}, "checks": {"quick": 1, "thorough": 1},
+     "timeout": {"quick": 1200, "thorough": 7000}},
+    {"name": "c02-multi", "bin": "c02", "pkg": ZZ + "c02", "run": "^TestVerifC02MultiKill$",
+     "shards": {"quick": 4, "thorough": 16}, "checks": {"quick": 1, "thorough": 12},
+     "timeout": {"quick": 1200, "thorough": 7000}, "shrinktime": "120s"},
+])
+
 add("C12", "exploration", [
     {"name": "c12-reuse", "bin": "c12", "pkg": ZZ + "c12", "run": "^TestVerifC12Reuse$",
      "shards": {"quick": 12, "thorough": 16}, "checks": {"quick": 12, "thorough": 500},
